@@ -282,6 +282,13 @@ func (s *Solver) check(cmdline string) SatResult {
 
 func (s *Solver) Check() SatResult { return s.check("(check-sat)") }
 
+// SetTimeout changes the per-query time limit (z3 back ends; cvc5 keeps its start-up limit).
+func (s *Solver) SetTimeout(ms int) {
+	if strings.HasPrefix(s.kind, "z3") {
+		s.send(fmt.Sprintf("(set-option :timeout %d)", ms))
+	}
+}
+
 // CheckWith checks satisfiability of current assertions plus extra (not retained).
 func (s *Solver) CheckWith(extra *Term) SatResult {
 	if extra.IsConst() {
